@@ -8,6 +8,8 @@ import (
 	"sort"
 	"strings"
 
+	"golang.org/x/tools/go/packages"
+
 	"lwverif/internal/load"
 )
 
@@ -25,6 +27,7 @@ type BandConfig struct {
 	CtorDecl    *ast.FuncDecl
 	Methods     map[string]*ast.FuncDecl // methods of the concrete type and promoted ones of band
 	MethodOwner map[string]string
+	owners      map[string]*Struct // embedding level (type name) -> its value
 }
 
 func (c *BandConfig) ID() string {
@@ -68,8 +71,49 @@ type Channel struct {
 }
 
 // DataRates decodes the dataRates map.
+// DataRatesMap returns the data-rate table as (index, struct) entries, whether the band keeps it as a map or as a
+// dense slice indexed by the data-rate (zero element = not defined).
+func (c *BandConfig) DataRatesMap() (*Map, bool) {
+	if m, ok := c.Base.Fields["dataRates"].(*Map); ok {
+		return m, true
+	}
+	sl, ok := c.Base.Fields["dataRates"].(*Slice)
+	if !ok {
+		return nil, false
+	}
+	m := &Map{Pos: sl.Pos}
+	for i, el := range sl.Elems {
+		st, isSt := el.(*Struct)
+		if !isSt {
+			return nil, false
+		}
+		if isZeroValue(st) {
+			continue
+		}
+		m.Entries = append(m.Entries, &MapEntry{K: Int{int64(i)}, V: st, Pos: sl.Pos})
+	}
+	return m, true
+}
+
 func (c *BandConfig) DataRates() ([]DataRate, error) {
 	m, ok := c.Base.Fields["dataRates"].(*Map)
+	if !ok {
+		// a dense table indexed by the data-rate (a zero element = not defined) is the same information
+		if sl, isSl := c.Base.Fields["dataRates"].(*Slice); isSl {
+			m = &Map{Pos: sl.Pos}
+			for i, el := range sl.Elems {
+				st, isSt := el.(*Struct)
+				if !isSt {
+					return nil, fmt.Errorf("dataRates[%d] undetermined", i)
+				}
+				if isZeroValue(st) {
+					continue
+				}
+				m.Entries = append(m.Entries, &MapEntry{K: Int{int64(i)}, V: st, Pos: sl.Pos})
+			}
+			ok = true
+		}
+	}
 	if !ok {
 		return nil, fmt.Errorf("dataRates is not a literal map: %s", Show(c.Base.Fields["dataRates"]))
 	}
@@ -132,6 +176,25 @@ func (c *BandConfig) Channels(field string) ([]Channel, error) {
 // RX1Table decodes rx1DataRateTable: uplink DR -> row.
 func (c *BandConfig) RX1Table() (map[int][]int, map[int]token.Pos, error) {
 	m, ok := c.Base.Fields["rx1DataRateTable"].(*Map)
+	if !ok {
+		// rows indexed by the uplink data-rate (a nil or empty row = no entry); a nil table has no rows
+		if _, isNil := c.Base.Fields["rx1DataRateTable"].(Nil); isNil {
+			m, ok = &Map{}, true
+		} else if sl, isSl := c.Base.Fields["rx1DataRateTable"].(*Slice); isSl {
+			m = &Map{Pos: sl.Pos}
+			for i, el := range sl.Elems {
+				row, isRow := el.(*Slice)
+				if _, isNil := el.(Nil); isNil || el == nil || (isRow && len(row.Elems) == 0) {
+					continue
+				}
+				if !isRow {
+					return nil, nil, fmt.Errorf("rx1 row %d undetermined", i)
+				}
+				m.Entries = append(m.Entries, &MapEntry{K: Int{int64(i)}, V: row, Pos: sl.Pos})
+			}
+			ok = true
+		}
+	}
 	if !ok {
 		return nil, nil, fmt.Errorf("rx1DataRateTable is not a literal map")
 	}
@@ -359,40 +422,61 @@ func EvalBands(p *load.Program) (*Bands, error) {
 				}
 				cfg.Value = st
 				cfg.TypeName = st.Type
-				base, ok := st.Fields["band"].(*Struct)
-				if !ok {
+				chain := embeddedChain(st, 0)
+				if chain == nil {
 					b.Problems = append(b.Problems, fmt.Sprintf("%s: no embedded band struct", cfg.ID()))
 					continue
 				}
-				cfg.Base = base
-				cfg.Methods = map[string]*ast.FuncDecl{}
-				cfg.MethodOwner = map[string]string{}
-				for _, fd := range load.AllFuncDecls(pk) {
-					if fd.Recv == nil {
-						continue
-					}
-					rn := load.RecvTypeName(fd.Recv.List[0].Type)
-					if rn == "band" {
-						if _, have := cfg.Methods[fd.Name.Name]; !have {
-							cfg.Methods[fd.Name.Name] = fd
-							cfg.MethodOwner[fd.Name.Name] = "band"
-						}
-					}
-				}
-				for _, fd := range load.AllFuncDecls(pk) {
-					if fd.Recv == nil {
-						continue
-					}
-					if load.RecvTypeName(fd.Recv.List[0].Type) == st.Type {
-						cfg.Methods[fd.Name.Name] = fd
-						cfg.MethodOwner[fd.Name.Name] = st.Type
-					}
-				}
+				cfg.Base = chain[len(chain)-1]
+				cfg.bindMethods(pk, chain)
 				b.Configs = append(b.Configs, cfg)
 			}
 		}
 	}
 	return b, nil
+}
+
+// embeddedChain: the chain of struct values from st down to the embedded `band` struct (st itself first): the outer type
+// may embed band directly or through intermediate unexported types (us902Band{subBandPlan{band{…}}}).
+func embeddedChain(st *Struct, depth int) []*Struct {
+	if st.Type == "band" {
+		return []*Struct{st}
+	}
+	if depth > 3 {
+		return nil
+	}
+	if b, ok := st.Fields["band"].(*Struct); ok {
+		return []*Struct{st, b}
+	}
+	for _, f := range st.Fields {
+		inner, ok := f.(*Struct)
+		if !ok || inner == st {
+			continue
+		}
+		if ch := embeddedChain(inner, depth+1); ch != nil {
+			return append([]*Struct{st}, ch...)
+		}
+	}
+	return nil
+}
+
+// bindMethods collects the methods visible on the outer value: those of band first, then of each embedding level up to
+// the outer type (an outer method shadows an inner one); MethodOwner names the type whose value is the receiver.
+func (cfg *BandConfig) bindMethods(pk *packages.Package, chain []*Struct) {
+	cfg.Methods = map[string]*ast.FuncDecl{}
+	cfg.MethodOwner = map[string]string{}
+	cfg.owners = map[string]*Struct{}
+	for i := len(chain) - 1; i >= 0; i-- {
+		lvl := chain[i]
+		cfg.owners[lvl.Type] = lvl
+		for _, fd := range load.AllFuncDecls(pk) {
+			if fd.Recv == nil || load.RecvTypeName(fd.Recv.List[0].Type) != lvl.Type {
+				continue
+			}
+			cfg.Methods[fd.Name.Name] = fd
+			cfg.MethodOwner[fd.Name.Name] = lvl.Type
+		}
+	}
 }
 
 // evalBandsGeneric: GetConfig is not a switch over constructor calls (a table of constructors, a chain of helpers …).
@@ -532,34 +616,13 @@ func evalBandsGeneric(p *load.Program, ev *Evaluator, gc *ast.FuncDecl) (*Bands,
 					continue // no dwell-time dependence
 				}
 				cfg := &BandConfig{Names: group, Ctor: "GetConfig", Repeater: rc, Dwell400: d4, CtorDecl: gc, Value: st, TypeName: st.Type}
-				base, ok := st.Fields["band"].(*Struct)
-				if !ok {
+				chain := embeddedChain(st, 0)
+				if chain == nil {
 					b.Problems = append(b.Problems, fmt.Sprintf("%s: no embedded band struct", cfg.ID()))
 					continue
 				}
-				cfg.Base = base
-				cfg.Methods = map[string]*ast.FuncDecl{}
-				cfg.MethodOwner = map[string]string{}
-				for _, fd := range load.AllFuncDecls(pk) {
-					if fd.Recv == nil {
-						continue
-					}
-					if load.RecvTypeName(fd.Recv.List[0].Type) == "band" {
-						if _, have := cfg.Methods[fd.Name.Name]; !have {
-							cfg.Methods[fd.Name.Name] = fd
-							cfg.MethodOwner[fd.Name.Name] = "band"
-						}
-					}
-				}
-				for _, fd := range load.AllFuncDecls(pk) {
-					if fd.Recv == nil {
-						continue
-					}
-					if load.RecvTypeName(fd.Recv.List[0].Type) == st.Type {
-						cfg.Methods[fd.Name.Name] = fd
-						cfg.MethodOwner[fd.Name.Name] = st.Type
-					}
-				}
+				cfg.Base = chain[len(chain)-1]
+				cfg.bindMethods(pk, chain)
 				b.Configs = append(b.Configs, cfg)
 			}
 		}
@@ -579,12 +642,14 @@ func (b *Bands) EvalMethod(c *BandConfig, name string, extra map[string]Value) (
 	}
 	bind := map[string]Value{}
 	for k, v := range extra {
-		bind[k] = v
+		bind[k] = DeepCopy(v) // arguments are passed by value: the callee must not be able to change the caller's table
 	}
 	if fd.Recv != nil && len(fd.Recv.List[0].Names) == 1 {
 		var recv Value = &Ptr{c.Value}
 		if c.MethodOwner[name] == "band" {
 			recv = &Ptr{c.Base}
+		} else if o := c.owners[c.MethodOwner[name]]; o != nil {
+			recv = &Ptr{o}
 		}
 		bind[fd.Recv.List[0].Names[0].Name] = recv
 	}
